@@ -20,6 +20,9 @@ func stackAlphabet(cfg Cfg, withEvict bool) []wire.Op {
 		p(wire.Op{Kind: "set", Key: "a", Val: "x", Flags: 0xfffffffe, TTL: 0})
 		p(wire.Op{Kind: "set", Key: "a", Val: "yz", Flags: 0, TTL: 3600})
 		p(wire.Op{Kind: "set", Key: "a", Val: "", Flags: 7, TTL: 0})
+		// a key with characters that mean something to formatting functions (keys are opaque bytes)
+		p(wire.Op{Kind: "set", Key: "u%3A%s%d%%", Val: "x", Flags: 12, TTL: 0})
+		p(wire.Op{Kind: "mget", Keys: []string{"u%3A%s%d%%", "a"}, Quiet: []bool{bin, false}})
 		// a value whose bytes look like protocol text (values are length-delimited in both protocols)
 		p(wire.Op{Kind: "set", Key: "b", Val: "\r\nEND\r\nVALUE b 0 1\r\n", Flags: 0x80000000, TTL: 0})
 		p(wire.Op{Kind: "add", Key: "a", Val: "p", Flags: 1, TTL: 0})
@@ -177,7 +180,7 @@ func runC01(c *rt.Ctx) {
 		}
 		// beyond the dense range: lengths around the buffer sizes of the stack (bufio 4096, the pool's
 		// 64 KiB batch buffer, 16-bit boundaries)
-		extra := []int{4095, 4096, 4097, 8191, 8193, 65535, 65536, 65537, 100000}
+		extra := []int{4095, 4096, 4097, 8191, 8193, 65535, 65536, 65537, 100000, 1048575, 1048576, 1048577, 2097153}
 		for n := 0; n <= maxSweep+len(extra)*step; n += step {
 			if c.Expired() {
 				return
